@@ -53,7 +53,7 @@ inline std::unique_ptr<ChainSim> MakeBaseSim()
     return sim;
 }
 
-struct Blk { std::shared_ptr<CBlock> block; uint256 hash; int height; int64_t time; };
+struct Blk { std::shared_ptr<CBlock> block; uint256 hash; int height; int64_t time; bool dup{false}; };
 
 struct World {
     std::unique_ptr<ChainSim> sim;
@@ -160,9 +160,10 @@ struct World {
             for (size_t i = 0; i < a[2].size(); ++i) { const int t = a[2][i].getInt<int>(); s.txs.push_back(txu.at(t)); fees += std::max<CAmount>(fee.at(t), 0); }
             const std::string cb = a[3].get_str();
             const CAmount limit = GetBlockSubsidy(s.height, sim->consensus()) + fees;
-            s.cb_value = cb == "zero" ? 0 : cb == "max" ? limit : limit + 1;
+            s.cb_value = (cb == "zero" || cb == "dup") ? 0 : cb == "max" ? limit : limit + 1;
+            if (cb == "dup") { s.dup_coinbase = true; s.version = 0x20000000 | (id << 8); }   // identical coinbase; the header still differs per block
             auto b = sim->BuildBlock(s);
-            blks.push_back({b, b->GetHash(), s.height, (int64_t)s.time});
+            blks.push_back({b, b->GetHash(), s.height, (int64_t)s.time, cb == "dup"});
             ids[b->GetHash()] = id;
             if (dry) { res.push_back("dry"); return res; }
             auto [r, nb] = sim->SubmitBlock(b, true);
@@ -197,7 +198,11 @@ struct World {
         }
         // the UTXO set restricted to the universe: base coins, every universe output, every model block's coinbase output
         std::vector<std::pair<std::pair<int, int>, COutPoint>> cand(ops.begin(), ops.end());
-        for (size_t b = 1; b < blks.size(); ++b) cand.push_back({{-(int)b, 1}, COutPoint(blks[b].block->vtx[0]->GetHash(), 0)});
+        bool dup_listed = false;
+        for (size_t b = 1; b < blks.size(); ++b) {
+            if (blks[b].dup) { if (!dup_listed) cand.push_back({{-99, 1}, COutPoint(blks[b].block->vtx[0]->GetHash(), 0)}); dup_listed = true; continue; }
+            cand.push_back({{-(int)b, 1}, COutPoint(blks[b].block->vtx[0]->GetHash(), 0)});
+        }
         auto& view = cm.ActiveChainstate().CoinsTip();
         std::map<std::pair<int, int>, UniValue> have;
         for (auto& [key, op] : cand) {
